@@ -473,6 +473,103 @@ impl Socket for SilentPeer {
     }
 }
 
+/// C13 (first sentence): an upload whose peer aborts.  The peer delivers a fixed plan of DATA blocks and then either
+/// stays silent or sends ERROR; it never completes the file.
+struct AbortPeer {
+    plan: Mutex<VecDeque<Packet>>,
+    then_error: bool,
+    error_sent: Mutex<bool>,
+}
+impl Socket for AbortPeer {
+    fn send(&self, _packet: &Packet) -> Result<(), Box<dyn Error>> {
+        Ok(())
+    }
+    fn send_to(&self, packet: &Packet, _to: &SocketAddr) -> Result<(), Box<dyn Error>> {
+        self.send(packet)
+    }
+    fn recv_with_size(&self, _size: usize) -> Result<Packet, Box<dyn Error>> {
+        if let Some(p) = self.plan.lock().unwrap().pop_front() {
+            return Ok(p);
+        }
+        let mut sent = self.error_sent.lock().unwrap();
+        if self.then_error && !*sent {
+            *sent = true;
+            return Ok(Packet::Error { code: tftpd::ErrorCode::NotDefined, msg: "peer gives up".to_string() });
+        }
+        drop(sent);
+        std::thread::sleep(TMO + Duration::from_millis(1));
+        Err("timeout".into())
+    }
+    fn recv_from_with_size(&self, size: usize) -> Result<(Packet, SocketAddr), Box<dyn Error>> {
+        Ok((self.recv_with_size(size)?, self.remote_addr()?))
+    }
+    fn remote_addr(&self) -> Result<SocketAddr, Box<dyn Error>> {
+        Ok("127.0.0.1:50003".parse().unwrap())
+    }
+    fn set_read_timeout(&mut self, _d: Duration) -> Result<(), Box<dyn Error>> {
+        Ok(())
+    }
+    fn set_write_timeout(&mut self, _d: Duration) -> Result<(), Box<dyn Error>> {
+        Ok(())
+    }
+}
+
+fn aborted_uploads(dir: &PathBuf, verdict: &mut Verdict, runs: &mut u64) {
+    for nb in [1usize, 2, 3, 5] {
+        // nb blocks, the last one short (3 bytes)
+        let len = (nb - 1) * BLK + 3;
+        let data = file_bytes(len);
+        let block = |j: usize| Packet::Data { block_num: j as u16, data: data[(j - 1) * BLK..std::cmp::min(j * BLK, len)].to_vec() };
+        // plans: in-sequence prefixes that stop before the end; one block lost and the rest (incl. the short final block) delivered
+        let mut plans: Vec<(String, Vec<usize>)> = Vec::new();
+        for j in 0..nb {
+            plans.push((format!("blocks 1..{j} arrive, then the peer aborts"), (1..=j).collect()));
+        }
+        for lost in 1..nb {
+            plans.push((format!("block {lost} is lost, blocks {}..{nb} (the last one short) arrive, then the peer aborts", lost + 1),
+                        (1..=nb).filter(|j| *j != lost).collect()));
+        }
+        for (what, plan) in plans {
+            // the in-sequence prefix that a correct receiver may have stored
+            let mut inseq = 0usize;
+            for j in &plan {
+                if *j == inseq + 1 {
+                    inseq += 1;
+                }
+            }
+            for ws in [1u16, 2, 4] {
+                for then_error in [false, true] {
+                    for clean in [true, false] {
+                        *runs += 1;
+                        let path = dir.join("abort.bin");
+                        let _ = std::fs::remove_file(&path);
+                        let peer = AbortPeer { plan: Mutex::new(plan.iter().map(|j| block(*j)).collect()), then_error, error_sent: Mutex::new(false) };
+                        let w = Worker::new(Box::new(peer), path.clone(), clean, BLK, TMO, ws, 1);
+                        let _ = w.receive().unwrap().join();
+                        let ctx = format!("upload of {nb} blocks (blksize {BLK}, windowsize {ws}, {}): {what} by {}",
+                                          if clean { "clean-on-error" } else { "keep-on-error" }, if then_error { "ERROR" } else { "silence" });
+                        let stored = std::fs::read(&path).ok();
+                        if clean {
+                            if let Some(s) = stored {
+                                verdict.violations.push(("C13", format!("{ctx}: the incomplete file survives with {} of {} bytes", s.len(), len)));
+                            }
+                        } else {
+                            match stored {
+                                None => verdict.violations.push(("C13", format!("{ctx}: the partial file was removed"))),
+                                Some(s) => {
+                                    if s.len() > inseq * BLK || s[..] != data[..s.len()] {
+                                        verdict.violations.push(("C13", format!("{ctx}: the kept file ({} bytes) is not a prefix of the {} in-sequence blocks received", s.len(), inseq)));
+                                    }
+                                }
+                            }
+                        }
+                    }
+                }
+            }
+        }
+    }
+}
+
 fn negotiated_settings(dir: &PathBuf, verdict: &mut Verdict) {
     for (blk, ws) in [(8usize, 3u16), (512, 16), (1468, 715), (32768, 40), (65464, 20)] {
         let path = dir.join("big.bin");
@@ -555,6 +652,9 @@ fn main() {
     }
     if which == "all" || which == "C09" {
         negotiated_settings(&dir, &mut verdict);
+    }
+    if which == "all" || which == "C13" {
+        aborted_uploads(&dir, &mut verdict, &mut runs);
     }
     let _ = std::fs::remove_dir_all(&dir);
     let mut found = false;
